@@ -33,6 +33,16 @@ the reader / writer drivers).
                            counter's own condition exhausted or the value == 0; otherwise rounding sees an under-divided value.
                            (Relative to the loop's own counter condition: a wrong bound in that condition, `scale < -1`, is numeric
                            and not decided.)
+ A3-scale-up-early-exit-rejected  a loop that only scales an accumulator once per counter step and can be left while the counter's
+                           condition still holds (`&& result < max_result`) hands on an under-scaled value: no normal return is
+                           reachable from such an exit state, i.e. the range test behind the loop rejects everything at or above the
+                           bound (decided by pushing the exit interval through the rounding code, not from the literal).
+ B1-digit-budget-constant  every loop that consumes input characters under a counter is entered with that counter holding one constant
+                           in all abstract states (the budget of one digit run does not depend on what an earlier run consumed).
+ T2-month-length-table     the constant table subscripted with tm_mon equals the calendar's maximum days per month (a spec table).
+ T3-timegm-fields-in-range  at the call of timegm every tm field is proven inside its calendar range (mon 0..11, mday 1..31 -- with T2 the
+                           per-month bound --, hour 0..23, min 0..59, sec 0..60, year >= 0): direction and presence of each bound test;
+                           timegm would silently normalise anything else into a different date.
  L1-coordinate-fully-consumed  (clause 2) functions that take the whole string (`const char*` parameter) and call
                            string_to_location_coordinate: assuming the character left at the returned position is not NUL,
                            no normal return is reachable (set_lon / set_lat; the *_partial variants take `const char**`).
@@ -755,6 +765,223 @@ def rule_scale_down(R, fns, cache):
                       'should have been shifted out' % (fn.expr(a['id']), fn.q, ' && '.join(fn.expr(c) for c in mine) or 'counter not yet at its final value', _fmt_iv(xv)))
 
 
+# ------------------------------------------------------------------------------------------------ A3 / B1 (loop edges)
+
+def _loop_counters(fn, shell, L, skip=None):
+    """integer locals stepped by a constant inside loop L (any spelling of the step)"""
+    cs = set()
+    for m in fn.all_nodes():
+        lv = None
+        if m.get('k') == 'unop' and m.get('op') in ('++', '--'):
+            lv = m['sub']
+        elif m.get('k') == 'assign':
+            lv = m['lhs']
+        if lv is None or not fn.in_range(m['id'], L['b'], L['e']):
+            continue
+        d = _int_local(fn, shell, lv)
+        if d is not None and d in shell.counters and d != skip:
+            cs.add(d)
+    return cs
+
+
+def _counter_conjuncts(fn, L, cs):
+    cond = _loop_cond(fn, L)
+    mine = []
+    for c in (_conjuncts(fn, cond) if cond is not None else []):
+        ds = {fn.nodes[y]['d'] for y in fn.subtree(c) if fn.nodes[y].get('k') == 'var' and fn.nodes[y].get('vk') in ('local', 'param')
+              and not (fn.nodes[y].get('t') or '').startswith('const ')}      # const locals (`max_length`) are bounds, not state
+        if ds and ds <= cs:
+            mine.append(c)
+    return mine
+
+
+def _inside_fn(fn, L):
+    def inside(b, seen=None):
+        blk = fn.blocks[b]
+        if blk['elems']:
+            return any(fn.in_range(e, L['b'], L['e']) for e in blk['elems'])
+        seen = seen or set()
+        if b in seen:
+            return False
+        seen.add(b)
+        ss = fn.succs(b)
+        return len(ss) == 1 and inside(ss[0], seen)     # empty loop-back / join block
+    return inside
+
+
+def rule_scale_up_early_exit(R, fns, cache):
+    """A loop that only scales an accumulator (x *= k / x <<= k, no digit added in the loop) once per step of a counter computes
+    x * k^c.  Leaving it while the counter's condition still holds (`&& result < max_result`, a `break`) delivers an under-scaled
+    value; that is acceptable only if the value is then rejected: no normal return is reachable from such an exit state.  (The
+    bound that triggers the early exit must be large enough for the range test behind the loop to reject everything above it;
+    decided from the interval that leaves the loop pushed through the code that follows, not from the literal.)"""
+    for fn in fns:
+        if not fn.loops:
+            continue
+        shell = cache.shell(fn)
+        ups = accumulator_updates(fn, shell)
+        roles = update_roles(fn, ups)
+        for (a, x, L, mult, _spine, form) in ups:
+            if not mult or '+' in form or '-' in form or '/' in form or a['id'] not in roles:
+                continue
+            if any(u[1] == x and u[2]['b'] == L['b'] and u[0] is not a for u in ups):
+                continue           # a digit is added elsewhere in the loop: accumulation, the counter is a budget (A1 / B1)
+            cs = _loop_counters(fn, shell, L, skip=x)
+            if not cs:
+                continue
+            mine = _counter_conjuncts(fn, L, cs)
+            inside = _inside_fn(fn, L)
+            box = {}
+            n_early = [0]
+
+            def probe(b, succ, st):
+                if not (inside(b) and not inside(succ)):
+                    return
+                it = box['it']
+                if mine:
+                    early = any(it.refine(c, True, st, {}, U._Everything()) for c in mine)
+                else:
+                    early = any((st.get(('v', c)) or (0, 1))[0] != (st.get(('v', c)) or (0, 1))[1] for c in cs)
+                if early:
+                    n_early[0] += 1
+                    st[('x', 'early')] = (1, 1)
+            it = U.Interp(fn, edge_probe=probe)
+            box['it'] = it
+            it.run()
+            key = _k('%s#%s:early-exit' % (fn.q, roles[a['id']]))
+            if it.res.truncated:
+                R.broken('A3: interpretation of %s truncated' % fn.q)
+                continue
+            rets = [nid for (nid, mk, _v) in it.res.returns if mk.get('early')]
+            if rets:
+                v = [v for (nid, mk, v) in it.res.returns if mk.get('early')][0]
+                R.bad('A3-scale-up-early-exit-rejected', key, fn.loc(a['id']),
+                      'the scaling loop around `%s` in %s can be left before its counter is exhausted and the under-scaled value still reaches '
+                      '`%s` (returned interval %s): the bound that stops the loop is too small for the range test behind it to reject every '
+                      'such value' % (fn.expr(a['id']), fn.q, fn.expr(rets[0]) if rets[0] in fn.nodes else 'end of function', _fmt_iv(v)))
+            else:
+                R.ok('A3-scale-up-early-exit-rejected', key, fn.loc(a['id']),
+                     '%d early-exit states, none reaches a normal return' % n_early[0])
+
+
+def rule_budget_constant(R, fns, cache):
+    """A loop that consumes input characters (advances a pointer) under a counter is entered with that counter holding one and
+    the same constant in every abstract state: how many characters one part of the grammar may have does not depend on how many
+    an earlier part consumed (`max_digits = 20;` before the next digit run)."""
+    for fn in fns:
+        if not fn.loops:
+            continue
+        shell = cache.shell(fn)
+        preds = fn.preds()
+        for idx, L in enumerate(sorted(fn.loops, key=lambda L: L['b'])):
+            advances = False
+            for m in fn.all_nodes():
+                if m.get('k') == 'unop' and m.get('op') in ('++', '--') and fn.in_range(m['id'], L['b'], L['e']) \
+                        and _innermost_loop(fn, m['id']) is L and (m.get('t') or '').rstrip().endswith('*'):
+                    advances = True
+            if not advances:
+                continue
+            cs = {c for c in _loop_counters(fn, shell, L)}
+            mine = _counter_conjuncts(fn, L, cs)
+            used = set()
+            for c in mine:
+                used |= {fn.nodes[y]['d'] for y in fn.subtree(c) if fn.nodes[y].get('k') == 'var' and 'd' in fn.nodes[y]}
+            cs &= used
+            if not cs:
+                continue           # no counter bounds this loop
+            inside = _inside_fn(fn, L)
+            heads = {b for b in fn.blocks if inside(b) and fn.blocks[b]['elems'] and any(p <= b for p in preds.get(b, []))
+                     and _innermost_loop(fn, fn.blocks[b]['elems'][0]) is L}
+            entries = []
+
+            def probe(b, succ, st):
+                if succ in heads and b > succ:
+                    entries.append(dict(st))
+            it = U.Interp(fn, edge_probe=probe)
+            it.run()
+            if it.res.truncated:
+                R.broken('B1: interpretation of %s truncated' % fn.q)
+                continue
+            if not heads or not entries:
+                continue
+            key = '%s#consuming-loop%d:budget' % (fn.q, idx + 1)
+            bad = None
+            for c in sorted(cs):
+                vs = [st.get(('v', c)) for st in entries]
+                if any(v is None for v in vs):
+                    bad = (c, None)
+                    break
+                h = (min(v[0] for v in vs), max(v[1] for v in vs))
+                if h[0] != h[1]:
+                    bad = (c, h)
+                    break
+            if bad is None:
+                R.ok('B1-digit-budget-constant', key, '%s:%d' % (fn.file, L['l']), 'counter is one constant at every entry (%d states)' % len(entries))
+            else:
+                R.bad('B1-digit-budget-constant', key, '%s:%d' % (fn.file, L['l']),
+                      'the character-consuming loop at line %d of %s is entered with its budget counter in %s: the number of characters it '
+                      'accepts depends on what earlier loops consumed (the counter is not re-initialised with a constant before the loop)'
+                      % (L['l'], fn.q, _fmt_iv(bad[1])))
+
+
+# ------------------------------------------------------------------------------------------------ T2 / T3 (calendar)
+
+CALENDAR = [31, 29, 31, 30, 31, 30, 31, 31, 30, 31, 30, 31]
+TM_RANGES = {'tm_mon': (0, 11), 'tm_mday': (1, 31), 'tm_hour': (0, 23), 'tm_min': (0, 59), 'tm_sec': (0, 60), 'tm_year': (0, 8099)}
+
+
+def rule_calendar(R, fns, cache):
+    for fn in fns:
+        # T2: a table subscripted with the month field of a struct tm is the calendar's days-per-month table
+        for n in fn.all_nodes():
+            if n.get('k') != 'call' or n.get('q') not in ('std::array::operator[]', 'std::array::at') or not n.get('args'):
+                continue
+            ix = fn.nodes.get(_rv(fn, fn.strip(n['args'][0])))
+            if ix is None or ix.get('k') != 'member' or ix.get('q') != 'tm::tm_mon':
+                continue
+            tab = cache.shell(fn).const_array(n['recv']) if n.get('recv') is not None else None
+            key = '%s#month-length-table' % fn.q
+            if tab is None:
+                R.broken('T2: the table subscripted with tm_mon in %s is not a constant-initialised const std::array' % fn.q)
+                continue
+            R.check(tab == CALENDAR, 'T2-month-length-table', key, fn.loc(n['id']),
+                    'the month-length table of %s is %s, the calendar demands %s (leap days / month ends written by to_iso() would be '
+                    'rejected, or impossible days accepted)' % (fn.q, tab, CALENDAR), 'table equals the calendar maximum days per month')
+        # T3: what is handed to timegm lies inside the calendar ranges in every state (timegm silently normalises otherwise)
+        calls = [n for n in fn.all_nodes() if n.get('k') == 'call' and n.get('q') in ('timegm', '_mkgmtime', 'mktime') and n.get('args')]
+        for call in calls:
+            an = fn.nodes.get(_rv(fn, fn.strip(call['args'][0])))
+            if an is None or an.get('k') != 'unop' or an.get('op') != '&':
+                continue
+            base = fn.expr(_rv(fn, an['sub']))
+            seen = {}
+
+            def hook(it, st, vals, n, seen=seen, base=base):
+                for f in TM_RANGES:
+                    v = st.get(('e', '%s.%s' % (base, f)))
+                    seen.setdefault(f, []).append(v)
+                return None
+            it = U.Interp(fn, hooks={call['id']: hook})
+            it.run()
+            if it.res.truncated:
+                R.broken('T3: interpretation of %s truncated' % fn.q)
+                continue
+            if not seen:
+                continue
+            for f, r in TM_RANGES.items():
+                vs = seen.get(f, [])
+                key = '%s#%s:%s' % (fn.q, call['q'], f)
+                if any(v is None for v in vs):
+                    R.bad('T3-timegm-fields-in-range', key, fn.loc(call['id']),
+                          '%s.%s is not bounded when %s is called in %s (a field outside %d..%d is silently normalised into a different date '
+                          'instead of being rejected)' % (base, f, call['q'], fn.q, r[0], r[1]))
+                    continue
+                h = (min(v[0] for v in vs), max(v[1] for v in vs))
+                R.check(U.inside(h, r), 'T3-timegm-fields-in-range', key, fn.loc(call['id']),
+                        '%s.%s can be %s when %s is called in %s, outside %d..%d: such a field is silently normalised into a different '
+                        'date instead of being rejected' % (base, f, _fmt_iv(h), call['q'], fn.q, r[0], r[1]), 'field in %s' % _fmt_iv(h))
+
+
 # ------------------------------------------------------------------------------------------------ L1
 
 def rule_consumed(R, fns):
@@ -792,6 +1019,9 @@ def all_rules(fb, R, fns=None):
     parsers = parser_functions(fns)
     rule_accum(R, fns, cache)
     rule_scale_down(R, fns, cache)
+    rule_scale_up_early_exit(R, fns, cache)
+    rule_budget_constant(R, fns, cache)
+    rule_calendar(R, fns, cache)
     rule_neg(R, fns, cache)
     rule_narrow(R, fns, cache, parsers)
     rule_digit(R, fns, cache)
@@ -828,6 +1058,10 @@ def run(ctx):
     R.expect('S4-strto-leading-space-rejected', 2)
     R.expect('S5-strtoul-minus-rejected', 1)         # string_to_ulong (the only strtoul site)
     R.expect('A2-scale-down-complete', 1)            # the negative-exponent loop of the coordinate parser
+    R.expect('A3-scale-up-early-exit-rejected', 1)   # the positive-exponent loop of the coordinate parser
+    R.expect('B1-digit-budget-constant', 5)          # coordinate parser: int digits, fraction, ignored digits, exponent digits; opl_parse_escaped
+    R.expect('T2-month-length-table', 1)
+    R.expect('T3-timegm-fields-in-range', 6)         # mon, mday, hour, min, sec, year at the timegm call of parse_timestamp
     R.expect('L1-coordinate-fully-consumed', 2)      # set_lon, set_lat (const char*)
     R.expect('N1-negation-excludes-minimum', 2)      # coordinate formatter, opl_parse_int (output_int works on the unsigned magnitude since bb05cce)
     R.expect('C1-narrowing-in-range', 7)      # coordinate parser, string_to_ulong, str_to_int x3, opl_parse_int<uint32>, Timestamp(const char*)
@@ -873,11 +1107,12 @@ def _selftest_once(fb, R):
             for i in mine:
                 if not i.ok:
                     wrong.append('%s reported by %s' % (nm, i.rule))
-    if wrong or R.broken_msgs or len(names) < 29:
+    if wrong or R.broken_msgs or len(names) < 36:
         raise AnalysisBroken('IVAL self-test: unexpected verdicts on selftest/positive/c13_text.cpp: %s %s' % (wrong, R.broken_msgs))
 
 
 SELFTESTS = [(r, 'c13_text.cpp', _selftest) for r in (
     'A1-accum-bounded', 'S1-strto-range-rejected', 'S2-strto-trailing-rejected', 'S3-strto-no-digits-rejected',
-    'S4-strto-leading-space-rejected', 'S5-strtoul-minus-rejected', 'A2-scale-down-complete', 'L1-coordinate-fully-consumed', 'N1-negation-excludes-minimum', 'C1-narrowing-in-range',
+    'S4-strto-leading-space-rejected', 'S5-strtoul-minus-rejected', 'A2-scale-down-complete', 'A3-scale-up-early-exit-rejected',
+    'B1-digit-budget-constant', 'T2-month-length-table', 'T3-timegm-fields-in-range', 'L1-coordinate-fully-consumed', 'N1-negation-excludes-minimum', 'C1-narrowing-in-range',
     'D1-digit-validated', 'T1-array-index-in-range')]
